@@ -23,6 +23,11 @@ type Deadline struct {
 
 	// +checklocks:m
 	err error
+
+	// expiry is the instant the armed timer stands for. It is zero while
+	// no timer is armed.
+	// +checklocks:m
+	expiry time.Time
 }
 
 // Done returns a channel. The Deadline will send an error on the channel
@@ -60,7 +65,24 @@ func (d *Deadline) Err() error {
 }
 
 func (d *Deadline) timeout() {
-	d.Cancel(os.ErrDeadlineExceeded)
+	d.m.Lock()
+	defer d.m.Unlock()
+
+	// The timer's function may already have been started when SetDeadline
+	// stopped or re-armed the timer. It then speaks for a deadline that has
+	// been cleared or moved, and must not expire the current one.
+	if d.expiry.IsZero() || time.Now().Before(d.expiry) {
+		return
+	}
+
+	d.err = os.ErrDeadlineExceeded
+
+	select {
+	case <-d.ch:
+		break
+	default:
+		close(d.ch)
+	}
 }
 
 // SetDeadline sets a new time at which the deadline will expire.
@@ -79,6 +101,7 @@ func (d *Deadline) SetDeadline(t time.Time) error {
 			break
 		}
 	}
+	d.expiry = time.Time{}
 
 	// Replace the channel to unexpire it
 	select {
@@ -99,6 +122,7 @@ func (d *Deadline) SetDeadline(t time.Time) error {
 		d.err = os.ErrDeadlineExceeded
 		close(d.ch)
 	} else {
+		d.expiry = start.Add(t.Sub(start))
 		d.timer.Reset(t.Sub(start))
 	}
 
